@@ -24,7 +24,9 @@ PATTERNS = ['foo', 'bar', r'\.count$', '^carbon', '^a', 'z$', 'a|b', '[0-9]+', '
             'é', r'\.', '^[^.]+$', 'prod|stage', r'^(?!ok)', 'cpu.*idle', 'tmp',
             # groups, back-references, named groups, inline flags: each LINE is one regular expression of its own
             r'^(\w+)\.\1\.', r'^(carbon|servers|stats)\.', r'(a|b)\.(c|d)', r'(\d)\1', r'(?P<h>web\d+)\.(?P=h)', r'(?P<h>x)y',
-            r'^(?:prod|stage)\.(api)\.\1', r'(?i)^WEB', r'(.)\1$', 'caf\u00e9', '^servers\\.caf\u00e9\\.', ';dc=a', 'host=b;dc', r'^\w+$']
+            r'^(?:prod|stage)\.(api)\.\1', r'(?i)^WEB', r'(.)\1$', 'caf\u00e9', '^servers\\.caf\u00e9\\.', ';dc=a', 'host=b;dc', r'^\w+$',
+            # anchored and unanchored alternatives in one rule (the ^ binds to the first alternative only)
+            r'^tmp\.|\.tmp$', r'^carbon\.|\.cpu\.\w+$', r'^a\.|b', '^x|y|z$', r'^servers|idle']
 NOISE = ['# a comment', '', '   ', '#', '(', '[a', '*x', '(?P<n', '\\',
          # every way re.compile can fail (errors with and without a position, with and without a pattern line number)
          '(?<=ab|xyz)cd', '(?<!a*)b', '(?P<h>x)(?P<h>y)', 'a{2,1}', '[z-a]', '(?z)', '\\1', '(?P=nope)', 'a**', '(?i', '\\N{nope}']
